@@ -1,4 +1,5 @@
 import MobiusModel.FileOps
+import MobiusModel.FileOpsAlias
 import MobiusModel.Generated.FileTypes
 import MobiusModel.ListLemmas
 /-!
@@ -232,6 +233,148 @@ example :
       [.newFolder none [100], .setInfo none [97] (some [99]) none, .move none [97] (some [0, 1, 0, 0, 1, 100]), .alias (some [0, 1, 0, 0, 1, 100]) [97] none]
     (handle [] (fun n => n.head? = some 46) fs (.list none)).2 =
       .list [⟨[97], [97], tyTEXT, crTTXT, 1⟩, ⟨[100], [100], tyFldr, zeros 4, 1⟩] := by decide
+
+-- ---------------------------------------------------------------- wave d: aliases are first-class entries
+
+/-- The agreement clause for an ALIAS of a regular file, addressed by the name the list shows for it: the size in
+    the list = the size in get-info = the file size of the download reply = the bytes the alias delivers (uint32).
+    The link string `t` resolves — through at most `statFuel - 1` further links — to a regular file holding `b`;
+    no resource fork side file exists under the alias's name. -/
+theorem alias_views_agree (root : Path) (ig : Bytes → Bool) (fs : FS) (pf : Option Bytes) (name : Bytes) (d : Path) (n : Comp)
+    (t q : Path) (b : Bytes) (f : Ffo) (k : Nat)
+    (ht : target root pf name = .ok (d ++ [n])) (hnr : isRoot root (d ++ [n]) = false)
+    (hlink : lookup fs (d ++ [n]) = some (.link t)) (hplain : firstSpecial fs (d ++ [n]) = none)
+    (hk : k < statFuel) (hres : stat k fs t = .ok (q, .file b))
+    (hrsrc : statOk fs (wrapper (d ++ [n])).rsrc = none)
+    (hffo : ffo fs (d ++ [n]) = .ok f) (en : Bytes) (hen : encStr (wrapper (d ++ [n])).name = some en) :
+    let sz := b.length % 4294967296
+    entryInfo fs d ig n (.link t) = .ok (some ((typeOfName (baseName t)).1, (typeOfName (baseName t)).2, sz)) ∧
+    (∃ ns cs ty c, (getInfo root fs pf name).2 = .info en ns cs ty c (if ty = tyFldr then none else some sz)) ∧
+    (∃ x, (download root fs pf name).2 = .download x sz) :=
+  FileOps.alias_views_agree root ig fs pf name d n t q b f k ht hnr hlink hplain hk hres hrsrc hffo en hen
+
+/-- The type code of an alias: the list reads it off the TARGET's name (above), get-info off the alias's own name
+    (no information fork side file under the alias's name) — equal whenever both names select the same row of the
+    extension table, in particular for every alias made by Make Alias (same name). -/
+theorem alias_type_agrees (fs : FS) (d : Path) (n : Comp) (t q : Path) (b : Bytes) (f : Ffo) (k : Nat)
+    (hlink : lookup fs (d ++ [n]) = some (.link t)) (hplain : firstSpecial fs (d ++ [n]) = none)
+    (hk : k < statFuel) (hres : stat k fs t = .ok (q, .file b))
+    (hinfo : statOk fs (wrapper (d ++ [n])).info = none)
+    (hffo : ffo fs (d ++ [n]) = .ok f) (hname : typeOfName (baseName t) = typeOfName (wrapper (d ++ [n])).name) :
+    f.fork.ty = (typeOfName (baseName t)).1 ∧ f.fork.creator = (typeOfName (baseName t)).2 := by
+  rw [hname]
+  exact FileOps.alias_info_type fs d n t q b f k hlink hplain hk hres hinfo hffo
+
+/-- An alias `l` of `d/a.txt` (3 bytes) in the root: the three views. -/
+example :
+    let fs : FS := [([], .dir), ([[100]], .dir), ([[100], [97, 46, 116, 120, 116]], .file [1, 2, 3]), ([[97, 46, 116, 120, 116]], .link [[100], [97, 46, 116, 120, 116]])]
+    (handle [] (fun _ => false) fs (.list none)).2 =
+      .list [⟨[100], [100], tyFldr, zeros 4, 1⟩, ⟨[97, 46, 116, 120, 116], [97, 46, 116, 120, 116], tyTEXT, [116, 116, 120, 116], 3⟩] ∧
+    (handle [] (fun _ => false) fs (.getInfo none [97, 46, 116, 120, 116])).2 =
+      .info [97, 46, 116, 120, 116] [84, 101, 120, 116, 32, 70, 105, 108, 101] [116, 116, 120, 116] tyTEXT none (some 3) ∧
+    (handle [] (fun _ => false) fs (.download none [97, 46, 116, 120, 116])).2 = .download 138 3 := by decide
+
+/-- Witness reported to the lead (not a theorem about agreement): an alias named `p.jpg` of `a.txt` is TEXT in the
+    list and JPEG in get-info — `hname` of `alias_type_agrees` cannot be dropped. -/
+example :
+    let fs : FS := [([], .dir), ([[97, 46, 116, 120, 116]], .file [1]), ([[112, 46, 106, 112, 103]], .link [[97, 46, 116, 120, 116]])]
+    (match (handle [] (fun _ => false) fs (.list none)).2 with
+      | .list es => es.map (·.ty)
+      | _ => []) = [tyTEXT, tyTEXT] ∧
+    (match (handle [] (fun _ => false) fs (.getInfo none [112, 46, 106, 112, 103])).2 with
+      | .info _ _ _ ty _ _ => ty
+      | _ => []) = [74, 80, 69, 71] := by decide
+
+/-- An alias of a folder is a folder in both views: `fldr` with the folder's non-ignored count in the list, `fldr`
+    in get-info. -/
+theorem alias_of_folder_is_folder_in_both_views (fs : FS) (d : Path) (ig : Bytes → Bool) (n : Comp) (t q : Path) (f : Ffo) (k : Nat)
+    (hlink : lookup fs (d ++ [n]) = some (.link t)) (hplain : firstSpecial fs (d ++ [n]) = none)
+    (hk : k < statFuel) (hres : stat k fs t = .ok (q, .dir))
+    (hinfo : statOk fs (wrapper (d ++ [n])).info = none) (hffo : ffo fs (d ++ [n]) = .ok f) :
+    entryInfo fs d ig n (.link t) = .ok (some (tyFldr, zeros 4, countVisible fs q ig % 4294967296)) ∧ f.fork.ty = tyFldr :=
+  ⟨FileOps.alias_of_folder_listed fs d ig n t q (FileOps.stat_mono_le k statFuel (Nat.le_of_lt hk) fs t _ hres),
+   FileOps.alias_of_folder_info fs d n t q f k hlink hplain hk hres hinfo hffo⟩
+
+example :
+    let fs : FS := [([], .dir), ([[100]], .dir), ([[100], [120]], .file [1]), ([[100], [46, 104]], .file []), ([[108]], .link [[100]])]
+    (handle [] (fun n => n.head? = some 46) fs (.list none)).2 =
+      .list [⟨[100], [100], tyFldr, zeros 4, 1⟩, ⟨[108], [108], tyFldr, zeros 4, 1⟩] ∧
+    (match (handle [] (fun n => n.head? = some 46) fs (.getInfo none [108])).2 with
+      | .info _ _ _ ty _ sz => (ty, sz)
+      | _ => ([], none)) = (tyFldr, none) := by decide
+
+/-- Rename, move and delete addressed at an alias act on the alias ITSELF (`rename_carries_whole`,
+    `move_carries_whole`, `delete_removes_whole` speak about whatever node is bound at the source name — a link
+    node included); the entry it points at stays: -/
+example :
+    let fs : FS := [([], .dir), ([[100]], .dir), ([[97]], .file [1, 2]), ([[108]], .link [[97]])]
+    (handle [] (fun _ => false) fs (.setInfo none [108] none (some [109]))) = ([([], .dir), ([[100]], .dir), ([[97]], .file [1, 2]), ([[109]], .link [[97]])], .ok) ∧
+    (handle [] (fun _ => false) fs (.move none [108] (some [0, 1, 0, 0, 1, 100]))) = ([([], .dir), ([[100]], .dir), ([[97]], .file [1, 2]), ([[100], [108]], .link [[97]])], .ok) ∧
+    (handle [] (fun _ => false) fs (.delete none [108])) = ([([], .dir), ([[100]], .dir), ([[97]], .file [1, 2])], .ok) := by decide
+
+-- ---------------------------------------------------------------- wave d: the comment length field
+
+/-- The information fork carries the comment's length in TWO bytes (big-endian) right after the name. -/
+theorem comment_length_field (i : InfoFork) (h : i.fixedWF) :
+    (i.encode.drop (72 + i.name.length)).take 2 = be16 i.comment.length :=
+  FileOps.comment_length_field i h
+
+/-- Every comment below 65536 bytes is read back exactly from the stored fork. -/
+theorem comment_roundtrip (i : InfoFork) (c : Bytes) (h : i.fixedWF) (hn : i.name.length + 74 < 65536) (hc : c.length < 65536) :
+    InfoFork.decode ({ i with comment := c }).encode = .ok { i with comment := c } :=
+  FileOps.comment_roundtrip i c h hn hc
+
+/-- Set-comment, then any later wrapper of the same entry (get-info, download header, rename, move): after an
+    acknowledged set-comment of `c` (below 65536 bytes) every flattened file object built for the entry carries
+    exactly `c`. -/
+theorem set_comment_is_read_back (root : Path) (fs : FS) (pf : Option Bytes) (name c : Bytes) (t : Path) (f g : Ffo) (fs' : FS)
+    (ht : target root pf name = .ok t) (hffo : ffo fs t = .ok f)
+    (hok : setInfo root fs pf name (some c) none = (fs', .ok))
+    (hwf : f.fork.fixedWF) (hn : f.fork.name.length + 74 < 65536) (hc : c.length < 65536)
+    (hplain : firstSpecial fs' (wrapper t).info = none) (hffo' : ffo fs' t = .ok g) :
+    g.fork = { f.fork with comment := c } ∧ g.fork.comment = c := by
+  have hw := (FileOps.setComment_writes_info root fs pf name c t f fs' ht hffo hok).1
+  have hs : statOk fs' (wrapper t).info = some (.file ({ f.fork with comment := c }).encode) :=
+    FileOps.statOk_file fs' _ _ hw hplain
+  have := FileOps.ffo_reads_comment fs' t { f.fork with comment := c } g ⟨hwf, by simp; omega, hc⟩ hn hs hffo'
+  exact ⟨this, by rw [this]⟩
+
+/-- 256, 257 and 65535 bytes: the length field is `01 00`, `01 01`, `ff ff` — one byte does not hold it. -/
+example : be16 256 = [1, 0] ∧ be16 257 = [1, 1] ∧ be16 65535 = [255, 255] ∧ be16 255 = [0, 255] := by decide
+
+/-- A 256-byte comment on a synthesised fork meets the hypotheses of `comment_roundtrip`. -/
+example : InfoFork.decode ({ synthFork tyTEXT crTTXT [97] with comment := List.replicate 256 120 }).encode =
+    .ok { synthFork tyTEXT crTTXT [97] with comment := List.replicate 256 120 } :=
+  comment_roundtrip (synthFork tyTEXT crTTXT [97]) (List.replicate 256 120)
+    (by simp [InfoFork.fixedWF, synthFork, amac, zeros, tyTEXT, crTTXT]) (by decide) (by rw [List.length_replicate]; decide)
+
+-- ---------------------------------------------------------------- wave d: configured ignore patterns
+
+/-- The list clause for a CONFIGURATION: with the ignore predicate "some configured pattern matches" (any matcher
+    `m`, any pattern list), an entry is listed iff it is bound in the folder, matches NONE of the configured
+    patterns, resolves, and its name is representable. -/
+theorem list_exact_configured {P : Type} (m : P → Bytes → Bool) (pats : List P) (fs : FS) (d : Path) (es : List Entry)
+    (h : fileList fs d (ignoredBy m pats) = .ok es) :
+    ∀ n, n ∈ es.map (·.disk) ↔ ∃ nd, lookup fs (d ++ [n]) = some nd ∧ (∀ p ∈ pats, m p n = false) ∧
+      visible fs d (ignoredBy m pats) (n, nd) = true ∧ (encStr (trimInc n)).isSome = true := by
+  intro n
+  rw [(list_exact fs d (ignoredBy m pats) es h).2.1 n]
+  constructor
+  · rintro ⟨nd, hl, hs⟩
+    simp only [shown, Bool.and_eq_true, Bool.not_eq_true'] at hs
+    exact ⟨nd, hl, (ignoredBy_false m pats n).1 hs.1.1, hs.1.2, hs.2⟩
+  · rintro ⟨nd, hl, hp, hv, he⟩
+    refine ⟨nd, hl, ?_⟩
+    simp only [shown, Bool.and_eq_true, Bool.not_eq_true']
+    exact ⟨⟨(ignoredBy_false m pats n).2 hp, hv⟩, he⟩
+
+/-- Witness of the defect class "a configured pattern is lost before it reaches the list": with patterns `^.` and
+    `^@` (prefix matcher) `@sys` is hidden; with `^@` dropped it is shown. -/
+example :
+    let fs : FS := [([], .dir), ([[97]], .file [1]), ([[46, 104]], .file []), ([[64, 115]], .file [2])]
+    let m : Bytes → Bytes → Bool := fun p n => p.isPrefixOf n
+    (match fileList fs [] (ignoredBy m [[46], [64]]) with | .ok es => es.map (·.disk) | _ => []) = [[97]] ∧
+    (match fileList fs [] (ignoredBy m [[46]]) with | .ok es => es.map (·.disk) | _ => []) = [[97], [64, 115]] := by decide
 
 -- ---------------------------------------------------------------- obligations over tables regenerated from the source
 
